@@ -63,6 +63,28 @@ CLAIMED['C15'] = dict(
    note=COMMON_NOTE + "Whether a constituent jumped/was adapted/contributed a density is observed by wrapping its methods on live instances.",
    technique="Coq proof (arithmetic of the clock, induction over iterations) + vm_compute correspondence", ref="DESIGN.md section 3, C15")
 
+NUM_NOTE = COMMON_NOTE + ("The numeric kernel is ONE Gallina definition over a numeric type class, instantiated with R for the theorems and with "
+            "binary64 floats (elementary functions of coq/theories/FloatLib.v) for vm_compute; floats are modelled as reals in the theorems "
+            "(rounding, overflow and u<=ar at 2^-53 are not covered). ")
+CLAIMED['C01'] = dict(
+   text="Theorems over the reals about the single-definition MH kernel (mh_logar/mh_decide/mh_step of chain.py:502-571): accept iff "
+        "u <= min(1,e^logar) and that minimum is recorded; e^logar is p'L'^beta q(x|x')/(pL^beta q(x'|x)); joint densities multiply and "
+        "non-jumping constituents contribute 1; -inf prior always rejected (all numeric instances); detailed balance; exact stationarity of "
+        "p L^beta on every finite state space. The float instance of the same definition is run by vm_compute against real Chain.step() "
+        "calls captured at the kernel boundary for 10 proposal mixes, plus threshold-perturbed uniforms; 60-digit decimal oracle and exact "
+        "lattice transition matrices on the real code.",
+   note=NUM_NOTE + "q in the statement is the reported proposal density; that it is the law of the jumps is C02.",
+   technique="Coq proof over Reals (algebra of exp/ln/Rmin, finite sums) + vm_compute correspondence of the float instance",
+   ref="DESIGN.md section 3, C01")
+CLAIMED['C03'] = dict(
+   text="Theorems: the loop of swap_temperatures (index array, carried loglk, conditional uniform consumption) equals the fold of adjacent-exchange "
+        "Metropolis kernels over an explicit configuration, for every ladder, log-likelihood assignment, uniform stream and numeric instance; "
+        "over the reals each exchange is accepted iff u <= min(1,(L_a/L_b)^(beta_k-beta_j)) with the slots' betas, which is the ratio of the joint "
+        "tempered target; exchange kernels and their composition in sweep order leave the target invariant on every finite configuration space. "
+        "The float instance is run against real swap_temperatures() calls driven down every decision path; exact sweep kernels Pi K = Pi on the real code.",
+   note=NUM_NOTE, technique="Coq proof (loop-invariant refinement, Reals algebra, finite-sum invariance) + vm_compute correspondence on every decision path",
+   ref="DESIGN.md section 3, C03")
+
 PENDING_REASON = "not yet claimed: model/theorems for this property are still being built (see DESIGN.md section 3); nothing is asserted about it"
 
 def main():
